@@ -29,6 +29,19 @@ CHECKS = {
             "held on the executions produced.",
             "R2/R3 are re-implementations from the statement; ambiguous query forms are counted as unspecified, not judged.",
             "runtime monitor on apply_query/get_with + reference overlay/typing model"),
+    "C14": ("exploration", "3 C14",
+            "pair laws (==/uri, hash, ==str, ordering, set and dict behaviour) on millions of generated pairs incl. same-string Sids of "
+            "different types, and a registry monitor (M-reg, fed by a wrapper on the Sid factory) that snapshots every Sid created in the "
+            "process and re-validates all of them after every step of random public-operation sequences with mutation attempts on every "
+            "returned container. Held on the executions produced.",
+            "only public operations and returned containers are used to attempt mutation; exceptions of operations are not C14 verdicts.",
+            "runtime invariant monitor (object registry re-validated at quiescent points) + pairwise law checking"),
+    "C19": ("exploration", "3 C19",
+            "reference implementation of the statement attached as icontract postconditions to the real extrapolate_templates / "
+            "pattern_replacing by an import hook (so they already guard the loading of the demo configuration) and evaluated on tens of "
+            "thousands of configurations from the C19 grammar. Held on the configurations produced.",
+            "type names with zero or several separators are executed but not judged; icontract evaluates on the real call.",
+            "icontract postconditions (reference model) on the real functions over generated configurations"),
 }
 
 NOT_YET = {}
